@@ -25,6 +25,23 @@ WORLD_NOTE = ('Modelled not verified: the dependency check inside BoundRoute.__i
               'application and of every Route object look for. ')
 
 CLAIMED = {
+ 'C16': dict(
+   text=('Theorems (Props/C16.v) over Model/Cookie.v (JSONCookie.unserialize -> SecureCookie.unserialize step by step over the '
+         'parsed wire form; the middleware\'s load / provide / stamp / save with modification tracking), HMAC/base64/JSON as '
+         'section variables with explicit premises (tag equality is equality, decode(encode v) = v, SYMBOLIC unforgeability: a '
+         'tag determines key and items): what the server serialized comes back as stored - whole, or without the stamp if '
+         'unexpired, empty after expiry; a non-empty cookie implies a well-formed string whose tag is the MAC under the server key '
+         'of exactly the received items; a tag made with another key or over other items, a missing separator, an undecodable tag, '
+         'a non-ASCII key, an item without "=" all yield the empty cookie; with numeric expiry the next request is presented '
+         'exactly what the application stored, nothing once the stamp has passed. Totality rests on the catch-all handlers '
+         'REGENERATED from cookie.py and pinned by a reflexivity obligation. Tie: request histories with patched clocks and 20 '
+         'tampering kinds against the real middleware; contents, status and Set-Cookie compared with the extracted model and with '
+         'an independent re-statement that recomputes HMAC-SHA1.'),
+   note=COMMON_NOTE + 'Modelled not verified: secure_cookie (its unserialize is transcribed; the lexical splitting of the cookie string '
+        'is re-stated in the harness), HMAC-SHA1 (computational unforgeability is a premise, symbolic in the theorems), constant-time '
+        'comparison, base64 leniency (a string that still verifies presents the genuinely signed contents), werkzeug cookie parsing.',
+   technique='Coq proof (case analysis of the unserialize pipeline and assoc-list lemmas under symbolic-crypto premises) + translator-pinned exception handling + extracted-model differential check on tampered histories',
+   design='6/C16'),
  'C15': dict(
    text=('Theorems (Props/C15.v) over Model/Mw.v (each built-in middleware\'s request function as a transformer of the inner '
          'outcome; zlib a section variable with the premise decompress(compress x) = x): gzip, HTTP cache (no matching client '
